@@ -122,3 +122,17 @@ package client
 //@ trace cache.(*RowCache).RowsShallow cache.(*RowCache).Rows client.Conditional.Matches
 //@ ensures calls("cache.(*RowCache).RowsShallow") == 0 || calls("client.Conditional.Matches") >= 1
 //@ ensures_ok calls("cache.(*RowCache).Rows") + calls("client.Conditional.Matches") == 1
+
+// api.Create (C15): the insert operation of model i carries the uuid or the
+// uuid-name found in THAT model's _uuid field (nothing when it has neither, and
+// nothing left over from an earlier model of the same call).
+//@ pred OpUUIDOf(op ovsdb.Operation, m model.Model) := (uuidNamed(unbox(fieldOf(m, "_uuid"), "string")) ==> (op.UUIDName == unbox(fieldOf(m, "_uuid"), "string") && op.UUID == "")) && (!uuidNamed(unbox(fieldOf(m, "_uuid"), "string")) && uuidValid(unbox(fieldOf(m, "_uuid"), "string")) ==> (op.UUID == unbox(fieldOf(m, "_uuid"), "string") && op.UUIDName == "")) && (!uuidNamed(unbox(fieldOf(m, "_uuid"), "string")) && !uuidValid(unbox(fieldOf(m, "_uuid"), "string")) ==> (op.UUID == "" && op.UUIDName == ""))
+//@ func (api).getTableFromModel group c15
+//@ modifies nothing
+//@ func (api).Create group c15
+//@ requires forall i: int :: 0 <= i && i < len(models) ==> (fieldOK(models[i], "_uuid") ==> istype(fieldOf(models[i], "_uuid"), "string"))
+//@ ensures_ok len(result0) == len(models)
+//@ ensures_ok forall i: int :: 0 <= i && i < len(models) ==> (result0[i].Op == "insert" && OpUUIDOf(result0[i], models[i]))
+//@ loop 1 invariant len(operations) == rangeindex + 1 && len(operations) <= cap(operations) && (cap(operations) > 0 ==> fresh(operations))
+//@ loop 1 invariant forall i: int :: 0 <= i && i <= rangeindex ==> (operations[i].Op == "insert" && OpUUIDOf(operations[i], models[i]))
+
